@@ -634,6 +634,9 @@ pub fn run_c20(ctx: &mut Ctx) {
     ctx.require("shape-histories", 100);
     ctx.require("variant-runs", 5_000);
     ctx.require("threaded-runs", 50);
+    let seen = super::agent::TRACE_SEEN.with(|c| c.replace(0));
+    ctx.count_n("tracing-events-seen-under-the-subscriber", seen);
+    ctx.require("tracing-events-seen-under-the-subscriber", 10_000);
     if !cfg!(miri) {
         ctx.require("clock-interposer-live", 1);
         ctx.require("getenv-interposer-live", 1);
